@@ -123,6 +123,8 @@ func eval(d *debugger.Debugger, fn func()) bool {
 type Src struct {
 	rec.Case
 	EnableCan bool `json:"enable_can"`
+	// Steps: the source logs transition steps (relations, handlers) into its telemetry
+	Steps bool `json:"steps,omitempty"`
 }
 
 type Op struct {
@@ -155,6 +157,7 @@ type snap struct {
 	filtered []int
 	index    am.S
 	cursor   int
+	steps    []string // per record: the transition steps as the debugger holds them
 }
 
 func takeSnap(d *debugger.Debugger, id string) (*snap, bool) {
@@ -169,6 +172,11 @@ func takeSnap(d *debugger.Debugger, id string) (*snap, bool) {
 			cp := *t
 			cp.Clocks = append(am.Time{}, t.Clocks...)
 			s.txs = append(s.txs, cp)
+			var sb strings.Builder
+			for _, stp := range t.Steps {
+				fmt.Fprintf(&sb, "%d:%s>%s/%v/%v%v%v;", stp.Type, stp.GetFromState(c.MsgStruct.StatesIndex), stp.GetToState(c.MsgStruct.StatesIndex), stp.RelType, stp.IsFinal, stp.IsSelf, stp.IsEnter)
+			}
+			s.steps = append(s.steps, sb.String())
 			if t.Time != nil {
 				s.times = append(s.times, *t.Time)
 			} else {
@@ -256,6 +264,9 @@ func runCase(c Case, st *ev.Stats) error {
 			if sc.EnableCan {
 				r.M.SemLogger().EnableCan(true)
 			}
+			if sc.Steps {
+				r.M.SemLogger().EnableSteps(true)
+			}
 			terr = dbg.TransitionsToDbg(r.M, addr)
 		}})
 		if run != nil {
@@ -298,6 +309,17 @@ func runCase(c Case, st *ev.Stats) error {
 	deadline := time.Now().Add(15 * time.Second)
 	for _, s := range srcs {
 		for {
+			// ids are looked up while their records may not have arrived yet (a jump to a transition
+			// of a stream that is still growing): a miss now must not stick once the record is there
+			eval(d, func() {
+				if c := d.Clients[s.id]; c != nil {
+					for _, w := range s.wants {
+						if !w.queued {
+							c.TxIndex(w.tx.Id)
+						}
+					}
+				}
+			})
 			sn, ok := takeSnap(d, s.id)
 			if ok && len(sn.txs) >= len(s.wants) && len(sn.parsed) == len(sn.txs) {
 				s.snap = sn
@@ -862,6 +884,9 @@ func exportImport(d *debugger.Debugger, ids []string, snaps map[string]*snap) er
 			if a.ID != b.ID || !teq(a.Clocks, b.Clocks) || a.Accepted != b.Accepted || a.IsAuto != b.IsAuto || a.IsQueued != b.IsQueued || a.IsCheck != b.IsCheck || a.QueueTick != b.QueueTick || a.Type != b.Type || fmt.Sprint(a.CalledStatesIdxs) != fmt.Sprint(b.CalledStatesIdxs) || !sn.times[i].Equal(sn2.times[i]) {
 				return fmt.Errorf("client %s record #%d differs after export -> import: %+v vs %+v", id, i, a, b)
 			}
+			if sn.steps[i] != sn2.steps[i] {
+				return fmt.Errorf("client %s record #%d: transition steps differ after export -> import: %q vs %q", id, i, sn.steps[i], sn2.steps[i])
+			}
 			pa, pb := sn.parsed[i], sn2.parsed[i]
 			if pa.TimeSum != pb.TimeSum || pa.TimeDiff != pb.TimeDiff || fmt.Sprint(pa.StatesAdded) != fmt.Sprint(pb.StatesAdded) || fmt.Sprint(pa.StatesRemoved) != fmt.Sprint(pb.StatesRemoved) {
 				return fmt.Errorf("client %s record #%d parsed data differs after export -> import: %+v vs %+v", id, i, pa, pb)
@@ -889,6 +914,7 @@ func genCase(t *rapid.T) Case {
 		}
 		s.History = gen.GenHistory(t, sc, gen.HistoryOpts{MinLen: 4, MaxLen: 16})
 		s.EnableCan = rapid.Bool().Draw(t, lbl+"can")
+		s.Steps = rapid.Bool().Draw(t, lbl+"steps")
 		c.Sources = append(c.Sources, s)
 	}
 	no := rapid.IntRange(2, 10).Draw(t, "ops")
